@@ -283,6 +283,145 @@ def r2_2(ctx):
     ctx.floor(rid, n, 7, "dimension-changing members of Polyhedron")
 
 
+PERMUTERS = ("swap_space_dimensions", "permute_space_dimensions")
+
+
+def r2_6(ctx):
+    rid = "R2.6"
+    ctx.rule(rid, "coordinate changes reach both descriptions: where a Polyhedron member renames coordinates of one description in place (con_sys / gen_sys .swap_space_dimensions(), .permute_space_dimensions()), every path to the exit also renames them in the other description, or has that description known not up to date (false edge of *_are_up_to_date(), marked empty, zero-dimensional), withdrawn (clear_*_up_to_date) or replaced wholesale; otherwise the two descriptions, both still claimed, denote different sets and later refinements are folded into the stale one")
+    fx = ctx.extract([F.lib_unit(n) for n in FILES] + [F.driver_unit("domains.cc", file_re=r"Polyhedron_(inlines|templates|chdims_templates)\.hh")])
+    n = 0
+    seen = set()
+    for f in fx.functions:
+        if f.clsn != "Polyhedron" or f.flag("pattern") or not f.cfg or f.kind != "method" or (f.relfile, f.line) in seen:
+            continue
+        seen.add((f.relfile, f.line))
+        ev = {}
+        for c in f.calls():
+            if c["k"] == "mcall" and f.call_name(c) in PERMUTERS and f.call_obj(c) is not None:
+                r = f.root(f.call_obj(c))
+                if r[0] == "this" and len(r) > 1 and r[1] in ("con_sys", "gen_sys"):
+                    ev[c["i"]] = r[1]
+        if not ev:
+            continue
+
+        def elem_effect(x, env):
+            if x["i"] in ev:
+                env = dict(env)
+                env["p" + ev[x["i"]][0]] = True
+            if x["k"] == "mcall" and f.call_obj(x) is not None and f.root(f.call_obj(x)) == ("this",):
+                nm = f.call_name(x)
+                if nm in ("set_empty", "set_zero_dim_univ", "m_swap"):
+                    env = dict(env); env["c"] = env["g"] = True
+                elif nm == "clear_constraints_up_to_date":
+                    env = dict(env); env["c"] = True
+                elif nm == "clear_generators_up_to_date":
+                    env = dict(env); env["g"] = True
+            return env
+
+        def edge_effect(cond, taken, env):
+            cn = f.deref(cond)
+            pol = True
+            while cn is not None and cn["k"] == "unop" and cn.get("op") == "!":
+                pol = not pol
+                cn = f.deref(cn["c"][0])
+            if cn is not None and cn["k"] == "mcall" and (f.call_obj(cn) is None or f.root(f.call_obj(cn)) == ("this",)):
+                truth = taken if pol else not taken
+                nm = f.call_name(cn)
+                if nm == "constraints_are_up_to_date" and not truth:
+                    env = dict(env); env["c"] = True
+                elif nm == "generators_are_up_to_date" and not truth:
+                    env = dict(env); env["g"] = True
+                elif nm == "marked_empty" and truth:
+                    env = dict(env); env["c"] = env["g"] = True
+            return env
+        for i_, side in sorted(ev.items()):
+            n += 1
+            node = f.nodes[i_]
+            inst = "Polyhedron::%s %s.%s (line %s)" % (f.name, side, f.call_name(node), node.get("l"))
+            other = "g" if side == "con_sys" else "c"
+        ex = flow.Explorer(f, elem_effect=elem_effect, edge_effect=edge_effect)
+        path = ex.find_path("ENTRY", lambda x: False, "EXIT",
+                            exit_ok=lambda env: (not env.get("pc") or env.get("pg") or env.get("g")) and (not env.get("pg") or env.get("pc") or env.get("c")))
+        inst = "Polyhedron::%s renames coordinates (%d calls)" % (f.name, len(ev))
+        if path is None:
+            ctx.ok(rid, inst, f.where())
+        else:
+            ctx.violation(rid, inst, f.where(), "a path renames the coordinates of one description only while the other stays claimed up to date: " + flow.render_path(f, path))
+    ctx.floor(rid, n, 4, "in-place coordinate renamings of a description")
+
+
+NONEMPTY_TRUE = ("minimize", "update_generators", "update_constraints", "process_pending_constraints", "process_pending_generators",
+                 "remove_pending_to_obtain_generators", "remove_pending_to_obtain_constraints", "process_pending")
+
+
+def r2_7(ctx):
+    rid = "R2.7"
+    ctx.rule(rid, "relaxing strict inequalities needs a witness of non-emptiness: the closure of the empty set is empty, but turning each `e > 0` of an unsatisfiable system into `e >= 0` can make it satisfiable ({x > 0, x <= 0} becomes {x = 0}). Where a member drops the strictness of constraints — set_epsilon_coefficient(0) on a row of con_sys without moving the inhomogeneous term, or re-adding `e >= 0` for a strict constraint of another polyhedron — every path to that step has established that the polyhedron whose constraints are relaxed is not empty: false edge of is_empty() / marked_empty() after a minimization, or a true result of minimize() / update_*() / process_pending_*()")
+    fx = ctx.extract([F.lib_unit(n) for n in FILES + ["C_Polyhedron.cc", "NNC_Polyhedron.cc"]])
+    n = 0
+    seen = set()
+    for f in fx.functions:
+        if not f.cfg or (f.relfile, f.line) in seen:
+            continue
+        seen.add((f.relfile, f.line))
+        events = []
+        for c in f.calls():
+            nm = f.call_name(c)
+            if c["k"] == "mcall" and nm == "set_epsilon_coefficient" and f.call_args(c) and (f.text(f.call_args(c)[0]).strip() in ("0", "Coefficient_zero()") or f.text(f.call_args(c)[0]).replace(" ", "").endswith("(0)")):
+                o = f.call_obj(c)
+                # the row must belong to con_sys (directly or through a local reference initialised from it)
+                src = f.text(o)
+                if o is not None and o["k"] == "ref" and o.get("dk") == "local":
+                    v = [y for y in f.walk() if y["k"] == "var" and y.get("n") == o["n"] and y.get("c")]
+                    src = f.text(f.deref(v[0]["c"][0])) if v else src
+                if "con_sys" not in src:
+                    continue
+                blk = next((a for a in f.ancestors(c) if a["k"] in ("block", "compound")), None)
+                if blk is not None and any(y["k"] == "mcall" and f.call_name(y) == "set_inhomogeneous_term" for y in f.walk(blk)):
+                    continue      # integer tightening (e > 0 becomes e - 1 >= 0): a strengthening
+                events.append((c, "this", "the strictness of a row of con_sys is dropped"))
+            if c["k"] in ("mcall", "call") and nm in ("add_constraint", "refine_no_check", "insert"):
+                # `add_constraint(expr >= 0)` under `c.is_strict_inequality()` for c taken from another polyhedron
+                strict_if = [a for a in f.ancestors(c) if a["k"] == "if" and "is_strict_inequality" in f.text(f.deref(a["c"][2])) and f.within(c, f.deref(a["c"][3]))]
+                if strict_if and ">=" in f.text(c):
+                    ys = [p_["n"] for p_ in f.params if "Polyhedron" in p_["t"]]
+                    if ys:
+                        events.append((c, ys[0], "`e >= 0` is added for a strict constraint of `%s`" % ys[0]))
+        for c, who, what in events:
+            n += 1
+            inst = "%s::%s: %s (line %s)" % (f.clsn or "", f.name, what, c.get("l"))
+
+            def edge(tc, taken, who=who):
+                pol = True
+                x = tc
+                while x is not None and (x["k"] in ("cast", "paren") or (x["k"] == "unop" and x.get("op") == "!")):
+                    if x["k"] == "unop":
+                        pol = not pol
+                    x = f.deref(x["c"][0])
+                if x is None or x["k"] != "mcall":
+                    return False
+                o = f.call_obj(x)
+                on = "this" if (o is None or f.root(o) == ("this",)) else (f.root(o)[1] if f.root(o)[0] == "param" else None)
+                if on != who:
+                    return False
+                truth = taken if pol else not taken
+                nm2 = f.call_name(x)
+                if nm2 == "is_empty" and not truth:
+                    return True
+                if nm2 in NONEMPTY_TRUE and truth:
+                    return True
+                if nm2 in ("constraints_are_minimized", "generators_are_minimized", "generators_are_up_to_date") and truth:
+                    return True      # a minimized description, or any generator description, belongs to a polyhedron already found non-empty
+                return False
+            p = flow.must_precede(f, c, lambda x: False, edge_satisfied=edge, track_env=False)
+            if p is None:
+                ctx.ok(rid, inst, f.where(c))
+            else:
+                ctx.violation(rid, inst, f.where(c), "a path reaches the relaxation without having established that %s is not empty (%s): an unsatisfiable system with strict inequalities can become satisfiable, and the closure of the empty set comes out non-empty" % ("the receiver" if who == "this" else "`%s`" % who, flow.render_path(f, p)))
+    ctx.floor(rid, n, 2, "strictness-dropping steps")
+
+
 def r2_3(ctx):
     from rules import precond
     rid = "R2.3"
@@ -308,6 +447,8 @@ def run(ctx):
     r2_2(ctx)
     r2_3(ctx)
     r2_5(ctx)
+    r2_6(ctx)
+    r2_7(ctx)
     from rules import dirty
     fxd = ctx.extract([F.lib_unit(n) for n in FILES + ["Generator.cc", "Constraint.cc", "Generator_System.cc", "Constraint_System.cc",
                                                         "Polyhedron_nonpublic.cc", "BHRZ03_Certificate.cc", "H79_Certificate.cc"]]
